@@ -44,11 +44,7 @@ theorem primsQ : Prims PQ (fun s _ _ => PQ s) Room where
   acqFinish := fun r u h hid => ⟨acqFinish_inv h.1 r u, acqFinish_q h.1.uids h.2 r u hid⟩
   unlend := by
     intro s r hd b c' h _ _ _
-    have hn : InvNum { s with holders := s.holders.filter (·.req != r) } :=
-      h.1.frame rfl rfl rfl rfl rfl rfl rfl
-    have hq : InvQ { s with holders := s.holders.filter (·.req != r) } := h.2.filterHolders _
-    exact ⟨unlend_inv hn _ _ _, unlend_q hq _ _ _⟩
-  dropHolder := fun r h => ⟨h.1.frame rfl rfl rfl rfl rfl rfl rfl, h.2.filterHolders _⟩
+    exact ⟨unlend_inv h.1 _ _ _, unlend_q h.2 _ _ _⟩
   dropConnTask := fun h ht hc =>
     ⟨dropTask_plain h.1 ht hc.1 hc.2.1, h.2.ofVS (VS.fields rfl rfl rfl rfl)⟩
   connOk := fun h hb => ⟨connOk_inv' h.1 hb _, connOk_q h.1.uids h.2 _ _⟩
